@@ -12,6 +12,7 @@ pub fn driver(name: &str) -> Option<Box<dyn Driver>> {
     match name {
         "dispatch_rewards" => Some(Box::new(Dispatch)),
         "get_swap_info" => Some(Box::new(SwapInfo)),
+        "cw20_instantiate" => Some(Box::new(Cw20Instantiate)),
         _ => None,
     }
 }
@@ -87,6 +88,35 @@ impl Driver for SwapInfo {
             let ok = if ast > share { offer.denom == "usei" && ast - offer.amount.u128() == share } else { offer.denom == "uusd" && offer.amount.u128() == (Uint128::new(share - ast) * price).u128() };
             c.insert("gsi#leaves_stsei_share".to_string(), ok);
             obs = json!({"offer": [offer.amount.to_string(), offer.denom], "ask": ask, "share": share.to_string()});
+        }
+        (c, obs)
+    }
+}
+
+/// cw20-legacy instantiate: sum of the balances of all listed accounts vs. reported total supply
+pub struct Cw20Instantiate;
+impl Driver for Cw20Instantiate {
+    fn gen(&self, rng: &mut Rng, _i: u64) -> Value {
+        let n = rng.next() % 5;
+        let accts: Vec<Value> = (0..n).map(|_| json!([format!("addr{}", rng.next() % 4), rng.amount(1000).to_string()])).collect();
+        json!({"accounts": accts})
+    }
+    fn run(&self, input: &Value) -> Outcome {
+        use cw20_legacy::contract::{instantiate, query_balance, query_token_info};
+        use cw20_legacy::msg::InstantiateMsg;
+        let mut deps = cosmwasm_std::testing::mock_dependencies();
+        let accts: Vec<cw20::Cw20Coin> = input["accounts"].as_array().unwrap().iter().map(|a| cw20::Cw20Coin { address: a[0].as_str().unwrap().to_string(), amount: Uint128::new(u(&a[1])) }).collect();
+        let msg = InstantiateMsg { name: "Token".into(), symbol: "TKN".into(), decimals: 6, initial_balances: accts.clone(), mint: None };
+        let res = instantiate(deps.as_mut(), mock_env(), mock_info("creator", &[]), msg);
+        let mut c = BTreeMap::new();
+        let mut obs = json!({"err": res.as_ref().err().map(|e| e.to_string())});
+        if res.is_ok() {
+            let mut names: Vec<String> = accts.iter().map(|a| a.address.clone()).collect();
+            names.sort(); names.dedup();
+            let sum: u128 = names.iter().map(|n| query_balance(deps.as_ref(), n.clone()).unwrap().balance.u128()).sum();
+            let total = query_token_info(deps.as_ref()).unwrap().total_supply.u128();
+            c.insert("ca#supply_equals_sum_of_balances".to_string(), sum == total);
+            obs = json!({"sum_of_balances": sum.to_string(), "total_supply": total.to_string()});
         }
         (c, obs)
     }
